@@ -34,6 +34,11 @@ theorem Frame.of_eq {s s' : State} (h1 : s'.ctx = s.ctx) (h2 : s'.objs = s.objs)
     (h4 : s'.strategy = s.strategy) (h5 : s'.registry = s.registry) : Frame s s' :=
   ⟨h1, by rw [h2], fun p hp => ⟨p.2, by rw [← h3]; exact hp⟩, h4, h5⟩
 
+theorem frame_trySave (s : State) (o : Obj) : Frame s (trySave s o).1 ∧ (trySave s o).1.entries = s.entries := by
+  unfold trySave; split
+  · exact ⟨Frame.refl s, rfl⟩
+  · exact ⟨Frame.of_eq rfl rfl rfl rfl rfl, rfl⟩
+
 theorem frame_own (s : State) (a b c : Nat) : Frame s (s.own a b c) := by
   unfold State.own; split <;> exact Frame.of_eq rfl rfl rfl rfl rfl
 
@@ -147,7 +152,9 @@ theorem flushSer_facts (s : State) (oi : Nat) (o : Obj) (force : Bool) :
               have := hfin s1 hf1 he1
               exact ⟨this.1, this.2.1, fun _ => this.2.2⟩
             | none =>
-              have := hfin (saveToResource s1 o) (hf1.trans (Frame.of_eq rfl rfl rfl rfl rfl)) he1
+              simp only
+              have hts := frame_trySave s1 o
+              have := hfin (trySave s1 o).1 (hf1.trans hts.1) (hts.2.trans he1)
               exact ⟨this.1, this.2.1, fun _ => this.2.2⟩
       · have := hfin s (Frame.refl s) rfl
         exact ⟨this.1, this.2.1, fun _ => this.2.2⟩
@@ -261,15 +268,18 @@ theorem flushMem_facts (s : State) (oi : Nat) (o : Obj) (force : Bool) (ho : s.o
         exact reload_facts s o oi force hno
       · exact memFacts_of_same (Frame.refl s) rfl hno
     | some e =>
-      have hsave : Frame s (saveToResource (s.setObj oi { o with cell := e.cell }) { o with cell := e.cell }) :=
-        (frame_setObj (o' := { o with cell := e.cell }) ho rfl rfl).trans (Frame.of_eq rfl rfl rfl rfl rfl)
+      have hts := frame_trySave (s.setObj oi { o with cell := e.cell }) { o with cell := e.cell }
+      have hsave : Frame s (trySave (s.setObj oi { o with cell := e.cell }) { o with cell := e.cell }).1 :=
+        (frame_setObj (o' := { o with cell := e.cell }) ho rfl rfl).trans hts.1
       cases hm : e.modified
       · simp only [hm, Bool.false_eq_true, if_false]
         exact memFacts_fin force e he (Frame.refl s) rfl
       · simp only [hm, if_true]
         split
         · exact memFacts_fin force e he (Frame.of_eq rfl rfl rfl rfl rfl) rfl
-        · exact memFacts_fin force _ he (hsave.trans (Frame.of_eq rfl rfl rfl rfl rfl)) rfl
+        · split
+          · exact memFacts_fin force e he (hsave.trans (Frame.of_eq rfl rfl rfl rfl rfl)) hts.2
+          · exact memFacts_fin force _ he (hsave.trans (Frame.of_eq rfl rfl rfl rfl rfl)) hts.2
   · rename_i hdue
     have hd : (!(s.isBuffered o) || force) = false := by simpa using hdue
     rw [hd]
